@@ -1,4 +1,5 @@
 import EvyV.Model.Interp
+import EvyV.Model.Static
 /-
 What "well-typed" means for the evaluator model: the static typing of expressions and statements
 (the judgement the parser's checks establish), the typing of run-time values against a store typing,
@@ -59,36 +60,49 @@ def isCmp (op : Op) : Bool := op = .lt || op = .gt || op = .lteq || op = .gteq
 def isLogic (op : Op) : Bool := op = .and || op = .or
 def isEq (op : Op) : Bool := op = .eq || op = .neq
 
-/-- the typing of expressions (docs/spec.md, as enforced by pkg/parser): calls are not covered -/
-inductive Typed (G : Env) : Expr F → Ty → Prop
-  | num (v : F) : Typed G (.num v) .num
-  | str (s : Str) : Typed G (.str s) .str
-  | bool (b : Bool) : Typed G (.bool b) .bool
-  | var (n : Str) (t : Ty) : G n = some t → Typed G (.var n) t
+/-- the signature of a user-defined function: parameter types and result type (`none`: no result) -/
+structure FSig where
+  params : List Ty
+  ret : Option Ty
+
+/-- the signatures of the program's functions -/
+abbrev FEnv := Str → Option FSig
+
+/-- the typing of expressions (docs/spec.md, as enforced by pkg/parser); of the calls, those of
+user-defined functions with a fixed parameter list are covered -/
+inductive Typed (Φ : FEnv) (G : Env) : Expr F → Ty → Prop
+  | num (v : F) : Typed Φ G (.num v) .num
+  | str (s : Str) : Typed Φ G (.str s) .str
+  | bool (b : Bool) : Typed Φ G (.bool b) .bool
+  | var (n : Str) (t : Ty) : G n = some t → Typed Φ G (.var n) t
   /-- a value of a concrete type converted to `any` -/
-  | any (t : Ty) (e : Expr F) : t ≠ .any → Typed G e t → Typed G (.any t e) .any
-  | arr (elems : List (Expr F)) (s : Ty) : Reg s = true → (∀ e ∈ elems, Typed G e s) → Typed G (.arr elems) (.arr s)
-  | mapLit (pairs : List (Str × Expr F)) (s : Ty) : Reg s = true → (∀ p ∈ pairs, Typed G p.2 s) → Typed G (.mapLit pairs) (.map s)
-  | group (e : Expr F) (t : Ty) : Typed G e t → Typed G (.group e) t
-  | neg (e : Expr F) : Typed G e .num → Typed G (.unary .minus e) .num
-  | not (e : Expr F) : Typed G e .bool → Typed G (.unary .bang e) .bool
-  | arith (op : Op) (l r : Expr F) : isArith op = true → Typed G l .num → Typed G r .num → Typed G (.binary op l r) .num
-  | cmpNum (op : Op) (l r : Expr F) : isCmp op = true → Typed G l .num → Typed G r .num → Typed G (.binary op l r) .bool
-  | cmpStr (op : Op) (l r : Expr F) : isCmp op = true → Typed G l .str → Typed G r .str → Typed G (.binary op l r) .bool
-  | concat (l r : Expr F) : Typed G l .str → Typed G r .str → Typed G (.binary .plus l r) .str
-  | logic (op : Op) (l r : Expr F) : isLogic op = true → Typed G l .bool → Typed G r .bool → Typed G (.binary op l r) .bool
-  | eq (op : Op) (l r : Expr F) (t : Ty) : isEq op = true → Typed G l t → Typed G r t → Typed G (.binary op l r) .bool
-  | arrCat (l r : Expr F) (s : Ty) : Typed G l (.arr s) → Typed G r (.arr s) → Typed G (.binary .plus l r) (.arr s)
-  | idxArr (l i : Expr F) (s : Ty) : Typed G l (.arr s) → Typed G i .num → Typed G (.index l i) s
-  | idxStr (l i : Expr F) : Typed G l .str → Typed G i .num → Typed G (.index l i) .str
-  | idxMap (l i : Expr F) (s : Ty) : Typed G l (.map s) → Typed G i .str → Typed G (.index l i) s
-  | sliceArr (l : Expr F) (a b : Option (Expr F)) (s : Ty) : Typed G l (.arr s) →
-      (∀ x, a = some x → Typed G x .num) → (∀ x, b = some x → Typed G x .num) → Typed G (.slice l a b) (.arr s)
-  | sliceStr (l : Expr F) (a b : Option (Expr F)) : Typed G l .str →
-      (∀ x, a = some x → Typed G x .num) → (∀ x, b = some x → Typed G x .num) → Typed G (.slice l a b) .str
-  | dot (l : Expr F) (key : Str) (s : Ty) : Typed G l (.map s) → Typed G (.dot l key) s
+  | any (t : Ty) (e : Expr F) : t ≠ .any → Typed Φ G e t → Typed Φ G (.any t e) .any
+  | arr (elems : List (Expr F)) (s : Ty) : Reg s = true → (∀ e ∈ elems, Typed Φ G e s) → Typed Φ G (.arr elems) (.arr s)
+  | mapLit (pairs : List (Str × Expr F)) (s : Ty) : Reg s = true → (∀ p ∈ pairs, Typed Φ G p.2 s) → Typed Φ G (.mapLit pairs) (.map s)
+  | group (e : Expr F) (t : Ty) : Typed Φ G e t → Typed Φ G (.group e) t
+  | neg (e : Expr F) : Typed Φ G e .num → Typed Φ G (.unary .minus e) .num
+  | not (e : Expr F) : Typed Φ G e .bool → Typed Φ G (.unary .bang e) .bool
+  | arith (op : Op) (l r : Expr F) : isArith op = true → Typed Φ G l .num → Typed Φ G r .num → Typed Φ G (.binary op l r) .num
+  | cmpNum (op : Op) (l r : Expr F) : isCmp op = true → Typed Φ G l .num → Typed Φ G r .num → Typed Φ G (.binary op l r) .bool
+  | cmpStr (op : Op) (l r : Expr F) : isCmp op = true → Typed Φ G l .str → Typed Φ G r .str → Typed Φ G (.binary op l r) .bool
+  | concat (l r : Expr F) : Typed Φ G l .str → Typed Φ G r .str → Typed Φ G (.binary .plus l r) .str
+  | logic (op : Op) (l r : Expr F) : isLogic op = true → Typed Φ G l .bool → Typed Φ G r .bool → Typed Φ G (.binary op l r) .bool
+  | eq (op : Op) (l r : Expr F) (t : Ty) : isEq op = true → Typed Φ G l t → Typed Φ G r t → Typed Φ G (.binary op l r) .bool
+  | arrCat (l r : Expr F) (s : Ty) : Typed Φ G l (.arr s) → Typed Φ G r (.arr s) → Typed Φ G (.binary .plus l r) (.arr s)
+  | idxArr (l i : Expr F) (s : Ty) : Typed Φ G l (.arr s) → Typed Φ G i .num → Typed Φ G (.index l i) s
+  | idxStr (l i : Expr F) : Typed Φ G l .str → Typed Φ G i .num → Typed Φ G (.index l i) .str
+  | idxMap (l i : Expr F) (s : Ty) : Typed Φ G l (.map s) → Typed Φ G i .str → Typed Φ G (.index l i) s
+  | sliceArr (l : Expr F) (a b : Option (Expr F)) (s : Ty) : Typed Φ G l (.arr s) →
+      (∀ x, a = some x → Typed Φ G x .num) → (∀ x, b = some x → Typed Φ G x .num) → Typed Φ G (.slice l a b) (.arr s)
+  | sliceStr (l : Expr F) (a b : Option (Expr F)) : Typed Φ G l .str →
+      (∀ x, a = some x → Typed Φ G x .num) → (∀ x, b = some x → Typed Φ G x .num) → Typed Φ G (.slice l a b) .str
+  | dot (l : Expr F) (key : Str) (s : Ty) : Typed Φ G l (.map s) → Typed Φ G (.dot l key) s
   /-- type assertion `e.(t)` on an any -/
-  | assert (t : Ty) (e : Expr F) : t ≠ .any → Reg t = true → Typed G e .any → Typed G (.assert t e) t
+  | assert (t : Ty) (e : Expr F) : t ≠ .any → Reg t = true → Typed Φ G e .any → Typed Φ G (.assert t e) t
+  /-- a call of a user-defined function that returns a value: one argument of the declared type per parameter -/
+  | call (name : Str) (args : List (Expr F)) (sig : FSig) (t : Ty) : Φ name = some sig → sig.ret = some t →
+      args.length = sig.params.length →
+      (∀ (i : Nat) a pt, args[i]? = some a → sig.params[i]? = some pt → Typed Φ G a pt) → Typed Φ G (.call name args) t
 
 /-- the Go library behind `%` answers with one number (the oracle table of the harness does) -/
 def ExtOk (ext : Ext F) : Prop :=
@@ -121,61 +135,66 @@ def loopScope (lv : Option Str) (t : Ty) : SEnv :=
   | none => []
 
 mutual
-/-- statement typing: `STyped Gg ρ Gs s Gs'` — under the block scopes `Gs` (innermost first) and the
+/-- statement typing: `STyped Φ Gg ρ Gs s Gs'` — under the block scopes `Gs` (innermost first) and the
 globals `Gg`, in a function with result type `ρ`, statement `s` is well-typed and leaves the scopes
 `Gs'` (a declaration extends the innermost scope) -/
-inductive STyped (Gg : Env) (ρ : Option Ty) : List SEnv → Stmt F → List SEnv → Prop
-  | noop (Gs : List SEnv) : STyped Gg ρ Gs .noop Gs
-  | brk (Gs : List SEnv) : STyped Gg ρ Gs .brk Gs
+inductive STyped (Φ : FEnv) (Gg : Env) (ρ : Option Ty) : List SEnv → Stmt F → List SEnv → Prop
+  | noop (Gs : List SEnv) : STyped Φ Gg ρ Gs .noop Gs
+  | brk (Gs : List SEnv) : STyped Φ Gg ρ Gs .brk Gs
   | declLocal (h : SEnv) (rest : List SEnv) (n : Str) (e : Expr F) (t : Ty) : n ≠ underscore →
-      Typed (lookupG (h :: rest) Gg) e t → STyped Gg ρ (h :: rest) (.decl n e) (senvSet h n t :: rest)
+      Typed Φ (lookupG (h :: rest) Gg) e t → STyped Φ Gg ρ (h :: rest) (.decl n e) (senvSet h n t :: rest)
   | declGlobal (n : Str) (e : Expr F) (t : Ty) : n ≠ underscore → Gg n = some t →
-      Typed (lookupG [] Gg) e t → STyped Gg ρ [] (.decl n e) []
+      Typed Φ (lookupG [] Gg) e t → STyped Φ Gg ρ [] (.decl n e) []
   | assignVar (Gs : List SEnv) (n : Str) (e : Expr F) (t : Ty) : lookupG Gs Gg n = some t →
-      Typed (lookupG Gs Gg) e t → STyped Gg ρ Gs (.assign (.var n) e) Gs
-  | assignIdxArr (Gs : List SEnv) (l i e : Expr F) (s : Ty) : Typed (lookupG Gs Gg) l (.arr s) →
-      Typed (lookupG Gs Gg) i .num → Typed (lookupG Gs Gg) e s → STyped Gg ρ Gs (.assign (.index l i) e) Gs
-  | assignIdxMap (Gs : List SEnv) (l i e : Expr F) (s : Ty) : Typed (lookupG Gs Gg) l (.map s) →
-      Typed (lookupG Gs Gg) i .str → Typed (lookupG Gs Gg) e s → STyped Gg ρ Gs (.assign (.index l i) e) Gs
-  | assignDot (Gs : List SEnv) (l : Expr F) (key : Str) (e : Expr F) (s : Ty) : Typed (lookupG Gs Gg) l (.map s) →
-      Typed (lookupG Gs Gg) e s → STyped Gg ρ Gs (.assign (.dot l key) e) Gs
-  | retNone (Gs : List SEnv) : ρ = none → STyped Gg ρ Gs (.ret none) Gs
-  | retSome (Gs : List SEnv) (e : Expr F) (t : Ty) : ρ = some t → Typed (lookupG Gs Gg) e t → STyped Gg ρ Gs (.ret (some e)) Gs
+      Typed Φ (lookupG Gs Gg) e t → STyped Φ Gg ρ Gs (.assign (.var n) e) Gs
+  | assignIdxArr (Gs : List SEnv) (l i e : Expr F) (s : Ty) : Typed Φ (lookupG Gs Gg) l (.arr s) →
+      Typed Φ (lookupG Gs Gg) i .num → Typed Φ (lookupG Gs Gg) e s → STyped Φ Gg ρ Gs (.assign (.index l i) e) Gs
+  | assignIdxMap (Gs : List SEnv) (l i e : Expr F) (s : Ty) : Typed Φ (lookupG Gs Gg) l (.map s) →
+      Typed Φ (lookupG Gs Gg) i .str → Typed Φ (lookupG Gs Gg) e s → STyped Φ Gg ρ Gs (.assign (.index l i) e) Gs
+  | assignDot (Gs : List SEnv) (l : Expr F) (key : Str) (e : Expr F) (s : Ty) : Typed Φ (lookupG Gs Gg) l (.map s) →
+      Typed Φ (lookupG Gs Gg) e s → STyped Φ Gg ρ Gs (.assign (.dot l key) e) Gs
+  | retNone (Gs : List SEnv) : ρ = none → STyped Φ Gg ρ Gs (.ret none) Gs
+  | retSome (Gs : List SEnv) (e : Expr F) (t : Ty) : ρ = some t → Typed Φ (lookupG Gs Gg) e t → STyped Φ Gg ρ Gs (.ret (some e)) Gs
   | ifS (Gs : List SEnv) (conds : List (Expr F × List (Stmt F))) (els : Option (List (Stmt F))) :
-      (∀ c ∈ conds, Typed (lookupG Gs Gg) c.1 .bool) → (∀ c ∈ conds, BTyped Gg ρ ([] :: Gs) c.2) →
-      (∀ b, els = some b → BTyped Gg ρ ([] :: Gs) b) → STyped Gg ρ Gs (.ifS conds els) Gs
-  | whileS (Gs : List SEnv) (c : Expr F) (body : List (Stmt F)) : Typed (lookupG Gs Gg) c .bool →
-      BTyped Gg ρ ([] :: Gs) body → STyped Gg ρ Gs (.whileS c body) Gs
+      (∀ c ∈ conds, Typed Φ (lookupG Gs Gg) c.1 .bool) → (∀ c ∈ conds, BTyped Φ Gg ρ ([] :: Gs) c.2) →
+      (∀ b, els = some b → BTyped Φ Gg ρ ([] :: Gs) b) → STyped Φ Gg ρ Gs (.ifS conds els) Gs
+  | whileS (Gs : List SEnv) (c : Expr F) (body : List (Stmt F)) : Typed Φ (lookupG Gs Gg) c .bool →
+      BTyped Φ Gg ρ ([] :: Gs) body → STyped Φ Gg ρ Gs (.whileS c body) Gs
   /-- `for x := range start stop step`: x is a num, in a scope of its own around the body's scope -/
   | forStep (Gs : List SEnv) (lv : Option Str) (lvTy : Ty) (start : Option (Expr F)) (stop : Expr F) (step : Option (Expr F))
       (body : List (Stmt F)) : (∀ n, lv = some n → n ≠ underscore) →
-      (∀ x, start = some x → Typed (lookupG Gs Gg) x .num) → Typed (lookupG Gs Gg) stop .num →
-      (∀ x, step = some x → Typed (lookupG Gs Gg) x .num) →
-      BTyped Gg ρ ([] :: loopScope lv .num :: Gs) body →
-      STyped Gg ρ Gs (.forS lv lvTy (.step start stop step) body) Gs
+      (∀ x, start = some x → Typed Φ (lookupG Gs Gg) x .num) → Typed Φ (lookupG Gs Gg) stop .num →
+      (∀ x, step = some x → Typed Φ (lookupG Gs Gg) x .num) →
+      BTyped Φ Gg ρ ([] :: loopScope lv .num :: Gs) body →
+      STyped Φ Gg ρ Gs (.forS lv lvTy (.step start stop step) body) Gs
   /-- `for x := range array`: x has the element type -/
   | forArr (Gs : List SEnv) (lv : Option Str) (e : Expr F) (s : Ty) (body : List (Stmt F)) :
-      (∀ n, lv = some n → n ≠ underscore) → Typed (lookupG Gs Gg) e (.arr s) →
-      BTyped Gg ρ ([] :: loopScope lv s :: Gs) body →
-      STyped Gg ρ Gs (.forS lv s (.over e) body) Gs
+      (∀ n, lv = some n → n ≠ underscore) → Typed Φ (lookupG Gs Gg) e (.arr s) →
+      BTyped Φ Gg ρ ([] :: loopScope lv s :: Gs) body →
+      STyped Φ Gg ρ Gs (.forS lv s (.over e) body) Gs
   /-- `for x := range string`: x is a string (one code point) -/
   | forStr (Gs : List SEnv) (lv : Option Str) (lvTy : Ty) (e : Expr F) (body : List (Stmt F)) :
-      (∀ n, lv = some n → n ≠ underscore) → Typed (lookupG Gs Gg) e .str →
-      BTyped Gg ρ ([] :: loopScope lv .str :: Gs) body →
-      STyped Gg ρ Gs (.forS lv lvTy (.over e) body) Gs
+      (∀ n, lv = some n → n ≠ underscore) → Typed Φ (lookupG Gs Gg) e .str →
+      BTyped Φ Gg ρ ([] :: loopScope lv .str :: Gs) body →
+      STyped Φ Gg ρ Gs (.forS lv lvTy (.over e) body) Gs
   /-- `for x := range map`: x is a string (a key) -/
   | forMap (Gs : List SEnv) (lv : Option Str) (lvTy : Ty) (e : Expr F) (s : Ty) (body : List (Stmt F)) :
-      (∀ n, lv = some n → n ≠ underscore) → Typed (lookupG Gs Gg) e (.map s) →
-      BTyped Gg ρ ([] :: loopScope lv .str :: Gs) body →
-      STyped Gg ρ Gs (.forS lv lvTy (.over e) body) Gs
+      (∀ n, lv = some n → n ≠ underscore) → Typed Φ (lookupG Gs Gg) e (.map s) →
+      BTyped Φ Gg ρ ([] :: loopScope lv .str :: Gs) body →
+      STyped Φ Gg ρ Gs (.forS lv lvTy (.over e) body) Gs
+  /-- a call of a user-defined function as a statement (a result is dropped) -/
+  | callFn (Gs : List SEnv) (name : Str) (args : List (Expr F)) (sig : FSig) : Φ name = some sig →
+      args.length = sig.params.length →
+      (∀ (i : Nat) a pt, args[i]? = some a → sig.params[i]? = some pt → Typed Φ (lookupG Gs Gg) a pt) →
+      STyped Φ Gg ρ Gs (.callS (.call name args)) Gs
   /-- `print` takes any number of arguments of any type -/
-  | print (Gs : List SEnv) (args : List (Expr F)) : (∀ a ∈ args, ∃ t, Typed (lookupG Gs Gg) a t) →
-      STyped Gg ρ Gs (.callS (.call (lit "print") args)) Gs
+  | print (Gs : List SEnv) (args : List (Expr F)) : (∀ a ∈ args, ∃ t, Typed Φ (lookupG Gs Gg) a t) →
+      STyped Φ Gg ρ Gs (.callS (.call (lit "print") args)) Gs
 /-- a statement list: each statement under the scopes its predecessors left -/
-inductive BTyped (Gg : Env) (ρ : Option Ty) : List SEnv → List (Stmt F) → Prop
-  | nil (Gs : List SEnv) : BTyped Gg ρ Gs []
-  | cons (Gs Gs' : List SEnv) (s : Stmt F) (rest : List (Stmt F)) : STyped Gg ρ Gs s Gs' → BTyped Gg ρ Gs' rest →
-      BTyped Gg ρ Gs (s :: rest)
+inductive BTyped (Φ : FEnv) (Gg : Env) (ρ : Option Ty) : List SEnv → List (Stmt F) → Prop
+  | nil (Gs : List SEnv) : BTyped Φ Gg ρ Gs []
+  | cons (Gs Gs' : List SEnv) (s : Stmt F) (rest : List (Stmt F)) : STyped Φ Gg ρ Gs s Gs' → BTyped Φ Gg ρ Gs' rest →
+      BTyped Φ Gg ρ Gs (s :: rest)
 end
 
 /-- two lists related element by element -/
@@ -206,5 +225,21 @@ def ComplOk (S : Store) (ρ : Option Ty) : Completion F → Prop
   | .ret (some v) => ∃ t, ρ = some t ∧ VT S v t
   | .ret none => ρ = none
   | _ => True
+
+/-- mirror of `bindParams`: the scope of a function body, parameter by parameter -/
+def paramScope : List Str → List Ty → SEnv → SEnv
+  | p :: ps, t :: ts, g => paramScope ps ts (if p = underscore then g else senvSet g p t)
+  | _, _, g => g
+
+/-- the program's functions are well-typed against their signatures: a fixed parameter list, the body
+well-typed in the scope of the parameters, and — for a function with a result type — what the parser
+guarantees about returns (Props/C05: the body always terminates, breaks only inside loops, returns
+only values) -/
+structure ProgOk (Φ : FEnv) (Gg : Env) (prog : Program F) : Prop where
+  defined : ∀ name sig, Φ name = some sig → isBuiltin name = false ∧ ∃ fd, lookupFunc prog.funcs name = some fd
+  typed : ∀ name sig fd, Φ name = some sig → lookupFunc prog.funcs name = some fd →
+    fd.variadic = none ∧ fd.params.length = sig.params.length ∧
+    BTyped Φ Gg sig.ret [paramScope fd.params sig.params []] fd.body ∧
+    (∀ t, sig.ret = some t → blockTerms fd.body = true ∧ fnOkB false fd.body = true)
 
 end EvyV.TS
